@@ -1065,3 +1065,15 @@ def project_call(repo, fi, e: ast.AST) -> Optional[ast.AST]:
             return _c.deepcopy(bind[node.id]) if node.id in bind and isinstance(node.ctx, ast.Load) else node
 
     return ast.fix_missing_locations(S().visit(_c.deepcopy(picked)))
+
+
+
+def ctext(src: str) -> str:
+    """The canonical spelling of an expression given as text (what `ast.unparse` of the canonical form prints):
+    for comparing a test of the analysed code with an expected test."""
+    import copy as _c
+    from .. import pat as _pat, canon as _canon
+
+    t = _c.deepcopy(_pat.P(src))
+    _canon.sort_identity_tests(t)
+    return ast.unparse(t)
